@@ -114,17 +114,15 @@ def worker(version, args):
     tmp = tempfile.mkdtemp(prefix="c04_")
     try:
         base = bases.base_file(version, args.get("driver"))
-        # small base (map 4x4) so that saves are fast
-        with cc.quiet():
-            s0 = AoE2DEScenario.from_file(base)
-            s0.map_manager.map_size = 4
-            small = os.path.join(tmp, "small.aoe2scenario")
-            s0.write_to_file(small)
-            del s0
+        # small bases (map 4x4) so that saves are fast; for v1.54 also at trigger version 4.0
+        smalls = histories.small_bases(version, base, tmp, cc.quiet)
+        small = smalls[0]
+        pick = [0]
 
         def fresh():
+            pick[0] += 1
             with cc.quiet():
-                return AoE2DEScenario.from_file(small)
+                return AoE2DEScenario.from_file(smalls[pick[0] % len(smalls)])
 
         # ---- corpus / probes ---------------------------------------------------------------------------
         for pr in probe_histories():
